@@ -91,6 +91,11 @@ fn tool(name: &str) -> PathBuf {
     crate::kit::verif_root().join("target/tools/release").join(name)
 }
 
+/// One of the spellings of zero.
+fn zero_text(s: &mut Src) -> String {
+    s.pick(&["0", "0.0", "-0", "-0.0", "+0", "0e0", "0.000", "-0e5"]).to_string()
+}
+
 fn f32_text(s: &mut Src) -> String {
     let v: f32 = match s.weighted(&[4, 3, 2]) {
         0 => *s.pick(&[0.0f32, -0.0, 1.0, -1.0, 0.1, f32::MIN_POSITIVE, 1e-45, -1e-45, f32::MAX, f32::MIN, 16777216.0, 16777217.0, 1e-10, 123456.79, 3.4028235e38, 1.1754942e-38]),
@@ -271,10 +276,10 @@ impl Check for C20 {
     const ID: &'static str = "C20";
     fn rule() -> String {
         "XYZ files: 0..400 lines (one enumerated file with 9000 lines, more than one packet), finite f32 coordinates from a special pool (+-0, \
-         subnormals, +-MAX, 2^24 neighbours) and random bit patterns in shortest / exponent / debug / explicit-plus notation, colours 0..255 \
+         subnormals, +-MAX, 2^24 neighbours; 1 line in 7 is a point at the origin in some spelling of zero) and random bit patterns in shortest / exponent / debug / explicit-plus notation, colours 0..255 \
          (one enumerated file holds all 256 values in every channel), extra columns, short lines, LF or CRLF, single-space separated; converted by \
          e57-from-xyz then e57-to-xyz (real processes): same number of lines as input lines with >= 6 columns, in order, each coordinate parses to \
-         an f64 equal to the input f32, colours equal. E57 files from the writer generator, intact and with damaged pages: e57-check-crc exits 0 \
+         an f64 equal to the input f32, colours equal. E57 files from the writer generator (1 in 4 with its XML turned into a single-line document by the finalize transformer), intact and with damaged pages: e57-check-crc exits 0 \
          iff every page is valid by e57ref (single files and directories of 2..4 files); e57-extract-xml stdout = E57Reader::raw_xml = e57ref's XML bytes; e57-unpack: metadata.xml = XML, each \
          CSV row = Display of the raw values, each image file = the blob bytes. Non-trivial: XYZ file with > 1 packet of points or a special \
          float, E57 file with a damaged page, several clouds or images."
@@ -319,7 +324,7 @@ impl Check for C20 {
             };
             let lines = (0..n)
                 .map(|_| Line {
-                    xyz: [f32_text(s), f32_text(s), f32_text(s)],
+                    xyz: if s.chance(1, 7) { [zero_text(s), zero_text(s), zero_text(s)] } else { [f32_text(s), f32_text(s), f32_text(s)] },
                     rgb: if s.chance(1, 3) {
                         [*s.pick(&[0u8, 1, 2, 254, 255]), *s.pick(&[0u8, 1, 2, 254, 255]), *s.pick(&[0u8, 1])]
                     } else {
@@ -331,7 +336,11 @@ impl Check for C20 {
                 .collect();
             Case::Xyz { lines, crlf: s.chance(1, 4) }
         } else {
-            let program = small_program(s);
+            let mut program = small_program(s);
+            if s.chance(1, 4) {
+                // a single-line XML document (hundreds of bytes after its last line break)
+                program.end = prog::End::FinalizeMinified { keep_first: s.flag() };
+            }
             let nd = s.weighted(&[2, 2, 1]);
             let damage = (0..nd).map(|_| Damage::Unsealed { page: s.byte(), byte: s.u16(), bit: s.byte() }).collect();
             Case::E57 { program, damage }
@@ -346,6 +355,9 @@ impl Check for C20 {
                 run_xyz(&lines, false, &mut v)
             }
             Case::Xyz { lines, crlf } => {
+                if lines.iter().any(|l| l.keep >= 6 && l.xyz.iter().all(|t| t.parse::<f32>().map(|f| f == 0.0).unwrap_or(false))) {
+                    v.nt("point_at_the_origin");
+                }
                 if lines.iter().any(|l| l.xyz.iter().any(|t| t.contains('e') || t.starts_with('+') || t.len() > 12)) {
                     v.nt("special_float_notation_or_value");
                 }
@@ -353,6 +365,9 @@ impl Check for C20 {
             }
             Case::Dir { programs, damaged } => run_dir(programs, damaged, &mut v),
             Case::E57 { program, damage } => {
+                if matches!(program.end, prog::End::FinalizeMinified { .. }) {
+                    v.nt("single_line_xml_document");
+                }
                 if program.ops.iter().filter(|o| matches!(o, Op::Cloud(_))).count() >= 2 {
                     v.label("program_with_several_clouds");
                 }
